@@ -240,6 +240,31 @@ def _hydrate_post(ctx):
             ("returns-the-number-of-ids", I.ops.as_int(ctx.result) == I.ops.list_len(ids))]
 
 
+def _watch_authority(ctx):
+    sv = ctx.self_val
+    ctx.I.st.ghost["on_lock_release"] = lambda I: I.ops.truthy(I.getattr(sv, "_authoritative"))
+
+
+def _hydrate_authority_last(ctx):
+    """Between two critical sections of hydrate another thread may consult the filter (`is_authoritative`, then
+    `maybe_seen`): authority that the call itself grants must not be visible at any lock release that is followed by more
+    loading -- otherwise a negative answer is trusted while ids are still missing (seed C09-H)."""
+    I = ctx.I
+    top = ctx.st.effects
+    goals = []
+    n = 0
+    entry = z3.Bool("bloom._authoritative")
+    for pos, e in enumerate(top):
+        later_load = any(x.kind == "foreach" for x in top[pos + 1:])
+        inner = [(b, g) for b, g in T.flat([e]) if b.kind == "lock_release"]
+        for b, g in inner:
+            n += 1
+            if later_load or e.kind == "foreach":
+                goals.append((f"release{n}.no-new-authority-before-the-load-is-complete", z3.Implies(z3.And(g, b.data["snap"]), entry)))
+    goals.append(("some-release-observed", z3.BoolVal(n > 0)))
+    return goals
+
+
 def _reset_post(ctx):
     I = ctx.I
     if ctx.exc is not None:
@@ -278,7 +303,9 @@ def units():
     out.append(Unit(prop="*", name="L1/Bloom.maybe_seen", func=D + "maybe_seen", params=[("message_id", ("str",))],
                     obligations=[Obl("C09/bloom/B4.maybe_seen", _maybe_seen_post, when="any", canary=_inconsistent)], **abstract))
     out.append(Unit(prop="*", name="L1/Bloom.hydrate", func=D + "hydrate", params=[("message_ids", ("list", ("str",)))],
-                    obligations=[Obl("C09/bloom/B5.hydrate", _hydrate_post, when="any", canary=_inconsistent)], **abstract))
+                    obligations=[Obl("C09/bloom/B5.hydrate", _hydrate_post, when="any", canary=_inconsistent),
+                                 Obl("C09/bloom/B5.hydrate/authority-last", _hydrate_authority_last, when="any")],
+                    setup=_watch_authority, **abstract))
     out.append(Unit(prop="*", name="L1/Bloom.reset", func=D + "reset", params=[],
                     obligations=[Obl("C09/bloom/B6.reset", _reset_post, when="any")], **abstract))
     out.append(Unit(prop="*", name="L1/Bloom.lemma", func=D + "maybe_seen", params=[], run=lambda ctx: SNone, names=STATUS_NAMES, replayable=False,
